@@ -223,7 +223,7 @@ Lemma read_lines sep kvs :
   props_sep_ok sep = true -> Forall props_entry_ok kvs ->
   props_go PBeforeKey (props_write sep kvs) = POk [] [] kvs.
 Proof.
-  intros Hs Hall. induction Hall as [|[k v] kvs (Hk & Hv & _) _ IH]; [reflexivity|].
+  intros Hs Hall. induction Hall as [|[k v] kvs (Hk & Hv) _ IH]; [reflexivity|].
   cbn [props_write]. cbn [fst snd] in Hk, Hv. rewrite (read_line sep k v _ Hs Hk Hv), IH. reflexivity.
 Qed.
 
